@@ -15,7 +15,7 @@ from . import skeletons as sk
 from . import c05  # def-emitter-siblings is registered for C17 there
 from . import c08  # identity-key is registered for C17 there
 from . import c06  # wiring (`local` is the template's own namespace) is registered for C17 there
-from .common import calls, stmt_nodes
+from .common import calls, stmt_nodes, pn, access_paths
 
 
 def _fmt_left(node):
@@ -30,7 +30,7 @@ def key_agreement(ctx):
     """cached callables are registered under the names invalidate_body/def/closure use; default key = callable name unless cache_key is given"""
     db = ctx.db
     init = db.func("codegen._GenerateRenderMethod.__init__")
-    names = [n for n in walk_func(init) if isinstance(n, ast.Assign) and src(n.targets[0]) == "name"]
+    names = [n for n in walk_func(init) if isinstance(n, ast.Assign) and isinstance(n.targets[0], ast.Name) and ((_fmt_left(n.value) or "").startswith("render_") or str(const(n.value) or "").startswith("render_"))]
     fm = [(_fmt_left(n.value), n) for n in names if _fmt_left(n.value)]
     body = [n for n in names if isinstance(n.value, ast.Constant)]
     ctx.require(fm and body, "codegen.__init__: callable naming not found")
@@ -56,10 +56,10 @@ def key_agreement(ctx):
             dv = const(dn) if isinstance(dn, ast.Constant) else _fmt_left(dn) if dn is not None else None
             ctx.check(kv == expect and dv == expect, "invalidate." + what, db.where(c), "%s invalidates key %r / defname %r, the generator registers %r" % (meth, kv, dv, expect), "key and __M_defname = %r" % expect)
     wc = db.func("codegen._GenerateRenderMethod.write_cache_decorator")
-    ck = [n for n in walk_func(wc) if isinstance(n, ast.Assign) and src(n.targets[0]) == "cachekey"]
+    ck = [n for n in walk_func(wc) if isinstance(n, ast.Assign) and isinstance(n.targets[0], ast.Name) and any(const(x_) == "cache_key" for x_ in ast.walk(n.value))]
     ctx.require(ck, "write_cache_decorator: cachekey not found")
     v = ck[0].value
-    ok = isinstance(v, ast.Call) and (dotted(v.func) or "").endswith("parsed_attributes.get") and const(v.args[0]) == "cache_key" and src(v.args[1]) == "repr(name)"
+    ok = isinstance(v, ast.Call) and (dotted(v.func) or "").endswith("parsed_attributes.get") and const(v.args[0]) == "cache_key" and src(v.args[1]) == "repr(%s)" % pn(wc, 2)
     ctx.check(ok, "default-key", db.where(ck[0]), "cache key is %s, not parsed_attributes.get('cache_key', repr(name))" % src(v), "cache_key attribute, else the callable's name")
     # nested defs are cached under their bare name; top-level under render_<name>
     wi = db.func("codegen._GenerateRenderMethod.write_inline_def")
@@ -136,16 +136,20 @@ def arg_precedence(ctx):
     wc = db.func("codegen._GenerateRenderMethod.write_cache_decorator")
     # every statement that feeds cache_args, in source order, classified by where it reads from
     feeds = []
+    cavs = {env_["x"][1].id for _n, env_ in P.find(wc, "$x.items()") if isinstance(env_["x"][1], ast.Name)} & {s_.targets[0].id for s_ in wc.body if isinstance(s_, ast.Assign) and isinstance(s_.targets[0], ast.Name)}
+    ctx.require(len(cavs) == 1, "write_cache_decorator: the dictionary of cache arguments was not identified (%s)" % sorted(cavs))
+    cav = sorted(cavs)[0]
+    own = pn(wc, 1)
     for s_ in walk_func(wc):
         tgt = None
-        if isinstance(s_, ast.Assign) and src(s_.targets[0]) == "cache_args":
+        if isinstance(s_, ast.Assign) and src(s_.targets[0]) == cav:
             tgt = s_.value
-        elif isinstance(s_, ast.Expr) and isinstance(s_.value, ast.Call) and dotted(s_.value.func) in ("cache_args.update", "cache_args.setdefault"):
+        elif isinstance(s_, ast.Expr) and isinstance(s_.value, ast.Call) and dotted(s_.value.func) in (cav + ".update", cav + ".setdefault"):
             tgt = s_.value
         if tgt is None:
             continue
         t_ = src(tgt)
-        kind = "page" if "self.compiler.pagetag.parsed_attributes" in t_ else "own" if "node_or_pagetag.parsed_attributes" in t_ else None
+        kind = "page" if "self.compiler.pagetag.parsed_attributes" in t_ else "own" if (own + ".parsed_attributes") in t_ else None
         if kind:
             feeds.append((s_.lineno, kind, s_, "setdefault" in t_))
     feeds.sort(key=lambda f: f[0])
@@ -155,8 +159,8 @@ def arg_precedence(ctx):
     ups = [f[2] for f in feeds]
     for u in ups[:2]:
         t = src(u)
-        ctx.check("startswith('cache_')" in t and "!= 'cache_key'" in t and "[6:]" in t, "filter:%d" % u.lineno, db.where(u), "cache_* attribute selection changed: %s" % t, "cache_* minus cache_key, prefix stripped")
-    to = [n for n in walk_func(wc) if isinstance(n, ast.Assign) and "cache_args['timeout']" in src(n.targets[0])]
+        ctx.check("startswith('cache_')" in t and "!= 'cache_key'" in t and "[6:]" in t, "filter:%s" % ("page" if u is ups[0] else "own"), db.where(u), "cache_* attribute selection changed: %s" % t, "cache_* minus cache_key, prefix stripped")
+    to = [n for n in walk_func(wc) if isinstance(n, ast.Assign) and src(n.targets[0]) == "%s['timeout']" % cav]
     ctx.check(bool(to) and isinstance(to[0].value, ast.Call) and dotted(to[0].value.func) == "int", "timeout-int", db.where(to[0]) if to else db.where(wc), "timeout is not converted with int()", "timeout -> int")
     gk = db.func("cache.Cache._get_cache_kw")
     seqs = []
@@ -171,11 +175,11 @@ def arg_precedence(ctx):
     wrong = [n for n in walk_func(gk) if isinstance(n, ast.Call) and isinstance(n.func, ast.Attribute) and n.func.attr == "update" and n.args and "cache_args" in src(n.args[0])]
     ctx.check(len(seqs) >= 2 and not wrong, "template-then-call.all-branches", db.where(gk), "a branch of _get_cache_kw lets Template cache_args override the call's arguments (%d copy-then-update sequences, %d reversed updates)" % (len(seqs), len(wrong)), "both branches: copy of Template cache_args updated with the call's kwargs")
     for n, nxt in seqs:
-        ctx.check(nxt is not None and src(nxt) == "%s.update(kw)" % src(n.targets[0]), "template-then-call:%d" % n.lineno, db.where(n), "Template cache_args are not overridden by the call's keyword arguments", "cache_args.copy() then update(kw)")
+        ctx.check(nxt is not None and src(nxt) == "%s.update(%s)" % (src(n.targets[0]), pn(gk, 1)), "template-then-call:%d" % seqs.index((n, nxt)), db.where(n), "Template cache_args are not overridden by the call's keyword arguments", "cache_args.copy() then update(kw)")
     ifs = [n for n in walk_func(gk) if isinstance(n, ast.If) and "pass_context" in src(n.test)]
     ctx.check(P.has(gk, "if $c and self.impl.pass_context:\n    $k = $k.copy()\n    $k.setdefault('context', $c)"), "context-on-request", db.where(ifs[0]) if ifs else db.where(gk),
               "the context is not passed exactly when the implementation asks (on a private copy of the kwargs)", "context added on a copy iff impl.pass_context")
-    pop = [n for n in walk_func(gk) if isinstance(n, ast.Call) and dotted(n.func) == "kw.pop" and const(n.args[0]) == "__M_defname"]
+    pop = [n for n in walk_func(gk) if isinstance(n, ast.Call) and dotted(n.func) == pn(gk, 1) + ".pop" and const(n.args[0]) == "__M_defname"]
     ctx.check(bool(pop), "defname-popped", db.where(gk), "__M_defname is not removed from the keyword arguments handed to the backend", "__M_defname popped")
 
 
